@@ -313,7 +313,8 @@ PROPS = {
         "modules": ["Stun.Properties.C19"],
         "theorems": ["Stun.C19.value_eq_rfc", "Stun.C19.value_lt_2_14", "Stun.C19.read_value", "Stun.C19.value_read",
                      "Stun.C19.readValue_eq_rfc", "Stun.C19.readValue_range", "Stun.C19.value_injective",
-                     "Stun.C19.value_surjective", "Stun.C19.typeValue_arith", "Stun.C19.readValue_arith"],
+                     "Stun.C19.value_surjective", "Stun.C19.typeValue_arith", "Stun.C19.readValue_arith",
+                     "Stun.C19.value_out_of_domain", "Stun.C19.value_lt_2_14_any", "Stun.C19.read_value_any"],
         "streams": ["msgtype"],
         "level": "proof",
         "rule": "the complete domain is enumerated: Value() for all 4096x4 (method,class) pairs and ReadValue() for all "
